@@ -61,6 +61,11 @@ class C10(Prop):
         for t in grid:
             for p in PERSIST:
                 out.append({'pauses': [t], 'persist': p})
+        # time 0 is a point of the hydraulic grid too: a first part with duration 0 (only the initial solution), then the rest
+        if o['duration'] > 0:
+            out.append({'pauses': [0], 'persist': PERSIST[(scn.get('pause_enum') or {}).get('salt', 0) % len(PERSIST)]})
+            if grid:
+                out.append({'pauses': [0, grid[len(grid) // 2]], 'persist': 'pickle'})
         r = Rng(derive('c10enum', (scn.get('pause_enum') or {}).get('salt', 0)))
         if len(grid) >= 2:
             for _ in range(2):
